@@ -268,7 +268,7 @@ def inf_norm(vs):
     return r
 
 
-def make_point_problem(E, var_kinds, cons_kinds, fmt="coo", tag=""):
+def make_point_problem(E, var_kinds, cons_kinds, fmt="coo", tag="", memo=False):
     """Problem for the polynomial (NRA) harnesses: no uninterpreted functions.  Every distinct
     evaluation point (syntactic identity of its coordinates) gets fresh symbols f, g, c, J and a
     Lagrangian Hessian with the structure every Lagrangian Hessian has,
@@ -345,16 +345,27 @@ def make_point_problem(E, var_kinds, cons_kinds, fmt="coo", tag=""):
         def cons_jac(self, x):
             calls.append(("cons_jac", items(x), None))
             r = lookup(x)
-            return make_sparse(fmt, (m, n), [(i, j, r["J"][i][j]) for i in range(m) for j in range(n)])
+            if memo and "Jobj" in r:
+                return r["Jobj"]  # the caller keeps (memoises) the matrix it returned for this point
+            J = make_sparse(fmt, (m, n), [(i, j, r["J"][i][j]) for i in range(m) for j in range(n)])
+            if memo:
+                r["Jobj"] = J
+                handed.extend(snapshot([(f"J@{r['id']}", J)]))
+            return J
 
         def lag_hess(self, x, y):
             calls.append(("lag_hess", items(x), items(y)))
             r = lookup(x)
             Hm = hess(r, items(y))
-            return make_sparse(fmt, (n, n), [(a, b, Hm[a][b]) for a in range(n) for b in range(n)])
+            H = make_sparse(fmt, (n, n), [(a, b, Hm[a][b]) for a in range(n) for b in range(n)])
+            if memo:
+                # every returned Hessian object stays with the caller (kept for later inspection)
+                handed.extend(snapshot([(f"H@{r['id']}#{len(handed)}", H)]))
+            return H
 
+    handed = []
     p = P()
-    spec = dict(n=n, m=m, xl=xl, xu=xu, cl=cl, cu=cu, calls=calls, lookup=lookup, hess=hess, var_kinds=var_kinds, cons_kinds=cons_kinds, tag=tag)
+    spec = dict(n=n, m=m, xl=xl, xu=xu, cl=cl, cu=cu, calls=calls, lookup=lookup, hess=hess, var_kinds=var_kinds, cons_kinds=cons_kinds, tag=tag, handed=handed)
     return p, spec
 
 
